@@ -60,6 +60,10 @@ def shards(tier, seed):
     rng.shuffle(allp)
     for c, s in zip(chunk(allp, n * 2), split_seeds(seed + 162, n * 2)):
         out.append(("sched", c, 1 if tier == "quick" else 2, 3 if tier == "quick" else 20, s))
+    # third-party wake-ups (two contenders + a call on an unrelated identifier that shares their condition), mp branch
+    wake = [sc.to_json() for sc in P.object_wakeup_triples("mp") + P.meta_wakeup_triples("mp")]
+    for c, s in zip(chunk(wake, len(wake)), split_seeds(seed + 164, len(wake))):
+        out.append(("sched", c, 1, 12 if tier == "quick" else 60, s, 300 if tier == "quick" else 3000))
     for s in split_seeds(seed * 1000 + 163, n):
         out.append(("procs", 8 if tier == "quick" else 320, s))
     from .. import faultengine as F
@@ -333,7 +337,8 @@ def run_shard(kind, *args):
         return run_faults(*args)
     if kind == "procs":
         return run_histories(*args)
-    scns, bound, n_random, sub_seed = args
+    scns, bound, n_random, sub_seed = args[:4]
+    budget = args[4] if len(args) > 4 else None
     # check first that the mode is really entered, otherwise part (b) would silently test threading
     scratch = new_scratch("c16b")
     try:
@@ -346,7 +351,7 @@ def run_shard(kind, *args):
         del w
     finally:
         rmtree(scratch)
-    return P.run_scenarios(scns, bound, n_random, 0, sub_seed, SYMPTOMS, normalise=__import__("hsverif.props.C12", fromlist=["x"]).normalise_reader)
+    return P.run_scenarios(scns, bound, n_random, 0, sub_seed, SYMPTOMS, budget=budget, normalise=__import__("hsverif.props.C12", fromlist=["x"]).normalise_reader)
 
 
 def replay(witness):
